@@ -27,7 +27,7 @@ var (
 	thorough = flag.Bool("thorough", false, "thorough tier")
 	harness  = flag.String("harness", "/verif/harness", "path of the verifharness module")
 	plugins  = flag.String("plugins", "curry,uncurry,flip,apply,tuple", "comma separated plugin list")
-	cfg      = flag.String("cfg", "0000000000", "model variant flags written into every op line: unnamedFixed shadowFixed crossFixed voidFixed zeroFixed lhsFixed errTypeFixed errRecvFixed typedNilFixed localsFixed")
+	cfg      = flag.String("cfg", "0000000000000", "model variant flags written into every op line: unnamedFixed shadowFixed crossFixed voidFixed prefixFixed universeFixed resultsFixed zeroFixed lhsFixed errTypeFixed errRecvFixed typedNilFixed localsFixed")
 )
 
 func must(err error) {
@@ -132,6 +132,12 @@ func naming(s string, n int) []string {
 		ns[0], ns[1] = "_", "f"
 	case "err0":
 		ns[0] = "err"
+	case "universe":
+		copy(ns, []string{"nil", "string", "true", "len", "error"}[:n])
+	case "universe2":
+		copy(ns, []string{"a", "int", "b", "nil", "new"}[:n])
+	case "prefixuser":
+		copy(ns, []string{"param_3", "b", "innerParam_0", "param_x", "e"}[:n])
 	default:
 		panic(s)
 	}
@@ -147,7 +153,8 @@ func (g *gen) params(names []string) []funcs.Param {
 }
 
 func (g *gen) genC15() {
-	schemes := []string{"named", "blankall", "blankmix", "unnamed", "f0", "flast", "fmid", "prefixed", "prefixblank", "gennames", "blankf"}
+	schemes := []string{"named", "blankall", "blankmix", "unnamed", "f0", "flast", "fmid", "prefixed", "prefixblank", "gennames", "blankf",
+		"universe", "universe2", "prefixuser"}
 	idx := 0
 	reps := 1
 	if *thorough {
@@ -249,6 +256,17 @@ func (g *gen) genC15() {
 		}
 		g.add(c)
 	}
+	// named results: names the wrappers use themselves (f, param_<i>, innerParam_<i>) and harmless ones
+	for i, rn := range [][]string{{"f"}, {"param_0"}, {"err"}, {"success"}, {"out0"}, {"innerParam_1"}, {"r", "f"}, {"param_1", "x"}, {"res", "ok"}} {
+		names := naming([]string{"named", "blankmix", "blankall"}[i%3], 2+i%2)
+		ps := g.params(names)
+		rs := g.types(len(rn), false)
+		for _, kind := range []string{"curry", "flip", "apply", "uncurrycurry"} {
+			g.add(&funcs.Class{Prop: "C15", Kind: kind, Tag: "resultnames", Ps: ps, Rs: rs, Rn: rn})
+		}
+		inner := g.params(naming([]string{"named", "blankall"}[i%2], 1+i%2))
+		g.add(&funcs.Class{Prop: "C15", Kind: "uncurry", Tag: "resultnames", Outer: g.params([]string{[]string{"z", "_"}[i%2]}), Inner: inner, Rs: rs, Rn: rn})
+	}
 	// parameter names from the generator's OWN vocabulary (the identifiers its templates use for parameters
 	// and locals) at every position, all parameters of one type: a capture would compile silently
 	for i := range vocab {
@@ -330,6 +348,9 @@ func (g *gen) genC15() {
 		{"cross", "a", fill("a", false)},
 		{"crossgen", "innerParam_0", fill("_", false)},
 		{"crossgen2", "_", fill("param_0", false)},
+		{"prefixouter", "param_1", fill("innerParam_2", false)},
+		{"prefixswap", "innerParam_0", fill("param_0", false)},
+		{"universe", "string", fill("nil", false)},
 	}
 	for i, u := range uns {
 		ms := []int{i%4 + 1, (i+2)%4 + 1}
@@ -488,6 +509,15 @@ func (g *gen) genC16() {
 		ps := []funcs.Param{{Name: vocab[i], T: t}, {Name: vocab[(i+1)%len(vocab)], T: t}}
 		g.add(&funcs.Class{Prop: "C16", Kind: "toerror", Tag: "vocab", Ps: ps, Rs: g.types(i/2%3, false)})
 	}
+	// ---- toerror over functions with NAMED results (names the helpers use themselves included)
+	for i, rn := range [][]string{{"f"}, {"out0", "success"}, {"err", "ok"}, {"param_0", "b"}, {"success", "out0", "x"}} {
+		g.add(&funcs.Class{Prop: "C16", Kind: "toerror", Tag: "resultnames", Ps: g.params(naming([]string{"named", "blankmix"}[i%2], 1+i%2)),
+			Rs: g.types(len(rn)-1, false), Rn: rn})
+	}
+	// ---- toerror with predeclared identifiers and the renaming's own prefixes as parameter names
+	for i, s := range []string{"universe", "universe2", "prefixuser"} {
+		g.add(&funcs.Class{Prop: "C16", Kind: "toerror", Tag: s, Ps: g.params(naming(s, 2+i%2)), Rs: g.types(1, false)})
+	}
 	// ---- toerror given an error VALUE of an imported type
 	g.add(&funcs.Class{Prop: "C16", Kind: "toerror", Tag: "imported-error", Ps: g.params(naming("named", 2)), Rs: g.types(1, false),
 		ErrExpr: "geo.Err{Code: in[\"err\"][0]}", Import: "corpus/geo"})
@@ -505,8 +535,8 @@ func (g *gen) genC16() {
 
 func main() {
 	flag.Parse()
-	if len(*cfg) != 10 || strings.Trim(*cfg, "01") != "" {
-		must(fmt.Errorf("-cfg wants ten binary digits"))
+	if len(*cfg) != 13 || strings.Trim(*cfg, "01") != "" {
+		must(fmt.Errorf("-cfg wants thirteen binary digits"))
 	}
 	g := &gen{rng: rand.New(rand.NewSource(*seed)), stats: map[string]int{}}
 	want := map[string]bool{}
